@@ -181,6 +181,8 @@ def locate(pm: Any, m: Any, pl: str) -> Tuple[Any, Any]:
         return pm.K, m.contents['K']
     if pl == 'nestedclass':
         return pm.K.N, m.contents['K'].contents['N']
+    if pl == 'subclass':
+        return pm.C, m.contents['C']
     return pm, m
 
 
@@ -193,6 +195,8 @@ def compare_name(pl: str, pns: Any, dns: Any, name: str, label: str, full: str, 
     dobj = dns.contents.get(name)
     dups = [k for k in dns.contents if k == name]
     if pk is None:
+        if dobj is not None and dobj.kind is model.DocumentableKind.INSTANCE_VARIABLE and f'self.{name} =' in full:
+            return      # an instance variable set in a method is documented with the class by design; the class namespace does not hold it
         if dobj is not None:
             res['violations'].append(core.violation(f'invented/{pl}' + ('' if pl in NEGATIVE else f'/{label}{extra_sig}'), f'pydoctor documents {name} in a namespace where CPython binds nothing:\n{full}', case))
         return
@@ -221,7 +225,12 @@ def compare_name(pl: str, pns: Any, dns: Any, name: str, label: str, full: str, 
 def run_sources(items: Sequence[Tuple[str, str, List[Tuple[str, str, Optional[str]]], str]], res: Dict[str, Any]) -> None:
     """items: (placement, full source, [(name, label, attr-docstring literal)], signature suffix). One System for all items."""
     pys = []
-    files = {'pk/__init__.py': ''}
+    files = {'pk/__init__.py': '', 'pk/zbase.py': ZBASE}
+    if 'pk.zbase' not in sys.modules:
+        zb = types.ModuleType('pk.zbase')
+        exec(compile(ZBASE, 'pk.zbase', 'exec'), zb.__dict__)
+        sys.modules.setdefault('pk', types.ModuleType('pk'))
+        sys.modules['pk.zbase'] = zb
     for i, (pl, full, names, sfx) in enumerate(items):
         pm = types.ModuleType(f'mm{i}')
         try:
@@ -253,6 +262,8 @@ def run_sources(items: Sequence[Tuple[str, str, List[Tuple[str, str, Optional[st
         # nothing invented: every documented name of the namespace is bound by CPython (negative placements: nothing planted)
         if pl not in NEGATIVE and pl not in UNJUDGED:
             for k in dns.contents:
+                if getattr(dns.contents[k].kind, 'name', '') == 'INSTANCE_VARIABLE' and f'self.{k} =' in full:
+                    continue        # instance variables set in methods are listed with their class by design
                 if k not in vars(pns) and not k.startswith('_') and not k.endswith(('.setter', '.deleter')):      # 'p.setter' is how a setter is listed, by design
                     res['violations'].append(core.violation(f'invented-extra/{pl}', f'pydoctor documents {k}, CPython does not bind it:\n{full}', {'kind': 'src', 'src': full, 'place': pl, 'names': [k]}))
 
@@ -371,6 +382,59 @@ def check_literal(lit: str, pl: str, res: Dict[str, Any], rebind: Optional[str] 
             res['violations'].append(core.violation('inferred-type/elements', f'X = {lit}: inferred annotation {text!r} does not describe the elements of {value!r}', case))
 
 
+# ---- names a subclass binds although a base already defines them: the class body binds the name in the subclass, whatever the base has
+
+BASE_MEMBERS = {
+    'method': '    def X(self):\n        "base X"\n',
+    'static': '    @staticmethod\n    def X():\n        "base X"\n',
+    'clsm': '    @classmethod\n    def X(cls):\n        "base X"\n',
+    'prop': '    @property\n    def X(self):\n        "base X"\n        return 1\n',
+    'var': '    X = 0\n',
+    'ann-only': '    X: int\n',
+    'ivar': '    def __init__(self):\n        self.X = 0\n',
+    'nested-class': '    class X:\n        "base X"\n',
+}
+SUB_BINDINGS = {
+    'none': '    X = None\n',
+    'int': '    X = 1\n',
+    'ann': '    X: int = 1\n',
+    'def': '    def X(self):\n        "sub X"\n',
+    'static': '    @staticmethod\n    def X():\n        "sub X"\n',
+    'prop': '    @property\n    def X(self):\n        "sub X"\n        return 2\n',
+    'class': '    class X:\n        "sub X"\n',
+    'lambda': '    X = lambda self: 1\n',
+    'if': '    if True:\n        X = 2\n',
+    'tuple': '    X, Y = 1, 2\n',
+    'nothing': '    pass\n',
+    'ivar-only': '    def __init__(self):\n        self.X = 5\n',
+}
+BASE_WHERE = ('same', 'imported', 'grandparent')
+
+ZBASE = ''.join(f'class Base_{bk.replace("-", "_")}:\n{src}' for bk, src in BASE_MEMBERS.items())
+
+
+def inherited_items() -> List[Tuple[str, str, List[Tuple[str, str, Optional[str]]], str]]:
+    out = []
+    for bk, bsrc in BASE_MEMBERS.items():
+        for sk, ssrc in SUB_BINDINGS.items():
+            for where in BASE_WHERE:
+                if where == 'same':
+                    pre = f'class Base0:\n{bsrc}'
+                    base = 'Base0'
+                elif where == 'grandparent':
+                    pre = f'class Base0:\n{bsrc}class Mid0(Base0):\n    pass\n'
+                    base = 'Mid0'
+                else:
+                    pre = f'from pk.zbase import Base_{bk.replace("-", "_")} as Base0\n'
+                    base = 'Base0'
+                full = f'{pre}class C({base}):\n{ssrc}'
+                # the label names the structural pair, not every spelling: an assignment is an assignment, a function a function
+                sform = 'assign' if sk in ('none', 'int', 'ann', 'lambda', 'if', 'tuple') else sk
+                bform = 'function' if bk in ('method', 'static', 'clsm') else bk
+                out.append(('subclass', full, [('X', f'sub-{sform}-over-base-{bform}', None)], f'|{bk}'))
+    return out
+
+
 # ---- two-module packages (thorough): cross-module bases decide the kind
 
 def check_package(variant: int, res: Dict[str, Any]) -> None:
@@ -420,6 +484,8 @@ def jobs(tier: str) -> Iterable[Tuple[str, Any]]:
         yield ('literals', ('literals', pl))
     for v in range(10):
         yield ('packages', ('package', v))
+    for bk in BASE_MEMBERS:
+        yield ('inherited-names', ('inherited', bk))
     if tier == 'thorough':
         for pl in PLACE:
             for dn in ('none', 'below', 'multi'):
@@ -452,6 +518,10 @@ def run_job(job: Any, tier: str) -> Dict[str, Any]:
                 check_literal(l1, job[1], res, l2, how)
     elif job[0] == 'package':
         check_package(job[1], res)
+    elif job[0] == 'inherited':
+        items = [(a, b, c, '') for a, b, c, d in inherited_items() if d == '|' + job[1]]
+        run_sources(items, res)
+        res['samples'].append({'placement': 'subclass', 'source': items[0][1]})
     return res
 
 
